@@ -9,6 +9,7 @@ UNITS = {
     'joypad': {},
     'cart': {},
     'bus': {},
+    'core_step': {},
 }
 
 PROPS = {
@@ -84,6 +85,30 @@ PROPS['C06'] = {
     'level_text': 'Same harnesses as C05, control checks: PC after = PC + length or the defined target mod 2^16, SP and the stack bytes (high byte first) for PUSH/POP/CALL/RET/RST, machine cycles for both branch outcomes, Op::is_block_end against the table, status code, number/order/content of bus accesses; each of the 11 undefined encodings decodes to Op::Invalid and run_op can only panic on it.',
     'level_note': 'Call-site precondition pc <= 0xFFFC (instruction inside one fetch slice). interpreter::run_next_op / run_code_block (fetch loop) are covered by unit core_step.',
     'assumptions': [],
+}
+
+_CORE_TB = _BUS_TB + ['decoder::decode / interpreter::run_op / Op::is_block_end are external_body in unit core_step: their assumed contract (status <= 5, 1..3 bytes, 4..24 clocks, +0..3 taken cycles, SP/PC < 65536) is what the Kani ISA obligations of C05/C06 discharge per opcode; determinism of these functions is assumed',
+                      'CodeCache is an opaque type in unit core_step (interpreter-only build)']
+PROPS['C07'] = {
+    'level': 'proof', 'verus': ['core_step'], 'trusted_base': _CORE_TB, 'design_ref': 'DESIGN.md 5.7',
+    'technique': 'Verus contract on Core::handle_interrupt (relation irq_post) over the bus write contract; all IF/IE/IME/run-state/SP values symbolic',
+    'level_text': 'Core::handle_interrupt is extracted from /repo and proved against irq_post, the property sentence by sentence: pending = IF & IE; none pending => whole core unchanged; otherwise the CPU resumes; master enable not on => registers, memory, IME unchanged; on => IME off, PC high byte written at SP-1 then low byte at SP-2 (mod 2^16, through the bus contract, so pushes landing on IE/IF/ROM are covered), pending set re-sampled between the writes, lowest pending bit selects vector/IF bit, cancellation gives PC = 0 with IF untouched, +5 machine cycles.',
+    'level_note': 'The existential over the two intermediate memory states is witnessed by ghost snapshots placed by textual anchors (a lost anchor makes the run undecided, not an alarm).',
+    'assumptions': [],
+}
+PROPS['C08'] = {
+    'level': 'proof', 'verus': ['core_step'], 'trusted_base': _CORE_TB, 'design_ref': 'DESIGN.md 5.8',
+    'technique': 'Verus contracts on Core::run_interp / Core::update / interpreter::run_next_op against the reference machine ime_step/run_step; induction lemmas over status sequences',
+    'level_text': 'run_interp is proved to hand handle_interrupt exactly the state (IME = ime_step(old IME, status), run state = run_step, devices caught up); no dispatch happens in a step whose IME is not Enabled after the instruction; update proves that a halted/stopped CPU executes nothing, stays at the same PC until IF & IE != 0, and resumes at the following instruction (or in the handler when IME is on). Lemmas over ime_step give the EI delay, EI;DI, DI/RETI immediacy and "IME stays off" for all sequences.',
+    'level_note': 'Status codes per opcode come from the C06 obligations (assumed contract of run_op here). HALT with an interrupt already pending is excluded as in the property.',
+    'assumptions': ['the executed instruction does not straddle the end of its fetch slice (decode would index past the slice otherwise)'],
+}
+PROPS['C09'] = {
+    'level': 'proof', 'verus': ['core_step', 'bus', 'timer'], 'trusted_base': _CORE_TB, 'design_ref': 'DESIGN.md 5.9',
+    'technique': 'Verus contracts: get_consumed_cycles, to_clock_cycles, run_interp, update, MemoryAreas::run_clock_cycles, IO::run_clock_cycles, Timer::run_cycles (devices advance by exactly 4 x consumed)',
+    'level_text': 'Per step (instruction-stepped build): the devices receive catchup_post(mem, 4 * cycles) where cycles = the instruction\'s machine cycles (>= 1) plus the 5 pending from a previous dispatch; the timer view advances by exactly that many clocks (run), the LCD by video_after of the same count, DMA by count/4 bytes; catch-up happens before interrupts are sampled; a dispatch leaves exactly 5 cycles pending; a halted step delivers 4 clocks.',
+    'level_note': 'Not covered: the block-stepped (jit) accounting in Core::run_code_block (C04 / known limitation) and termination of Core::run_frame within two frame periods (needs the LCD schedule as a variant; not attempted).',
+    'assumptions': ['one catch-up batch <= 0xffff0000 clocks'],
 }
 
 HOOK_COMMITS = ['e7167ea']
